@@ -281,6 +281,43 @@ func TestC18(t *testing.T) {
 				}
 				w.Emit(trace.Ev{"t": "get", "k": key, "v": cur, "after": after})
 			}
+			// epilogue: more than a table's worth of other keys is written, so that the key's entry sits in a sealed (read-only)
+			// table; then it is read through the owner's embedded client and the caller overwrites what it was given
+			if _, err := emb.Get(ctx, key); err == nil {
+				for r := 0; r < 10; r++ {
+					dm.Put(ctx, fmt.Sprintf("seal-%d-%d", seq%3, r), []byte(fmt.Sprintf("%080d", r)))
+				}
+				w.Emit(trace.Ev{"t": "churn"})
+				for _, rd := range []olric.DMap{emb, dm} {
+					g, err := rd.Get(ctx, key)
+					if err != nil {
+						continue
+					}
+					b, _ := g.Byte()
+					nh++
+					h := &handle{id: seq*100 + nh, b: b}
+					w.Emit(trace.Ev{"t": "ret", "h": h.id, "k": key, "v": digest(h.b), "as": "bytes", "via": "epilogue"})
+					for x := range h.b {
+						h.b[x] = 'Y'
+					}
+					w.Emit(trace.Ev{"t": "mut", "h": h.id, "v": digest(h.b)})
+					hs = append(hs, h)
+				}
+				sum.Evaluations++
+				for _, h := range hs {
+					v := digest(h.b)
+					if h.str {
+						v = digest([]byte(h.s))
+					}
+					w.Emit(trace.Ev{"t": "obs", "h": h.id, "v": v, "after": "the caller modified a value read from a sealed table"})
+				}
+				cur := "nil"
+				if g, err := emb.Get(ctx, key); err == nil {
+					b, _ := g.Byte()
+					cur = digest(b)
+				}
+				w.Emit(trace.Ev{"t": "get", "k": key, "v": cur, "after": "the caller modified a value read from a sealed table"})
+			}
 			sum.Histories++
 			sum.DistinctNontrivial++
 			if len(sum.Samples) < 2 {
